@@ -279,9 +279,9 @@ func scalarEvents(tr *hx.Trace, r *hx.Rng, thorough bool) {
 	for _, q := range []int64{2, 3, 15, 16} { // exactly q*L and q*L - 1 (conditional subtractions at L and 2L-1)
 		wide = append(wide, new(big.Int).Mul(big.NewInt(q), L), new(big.Int).Sub(new(big.Int).Mul(big.NewInt(q), L), big.NewInt(1)))
 	}
-	nr := 40
+	nr := 600
 	if thorough {
-		nr = 2000
+		nr = 10000
 	}
 	for i := 0; i < nr; i++ {
 		wide = append(wide, refmodel.FromLE(r.Bytes(64)), refmodel.FromLE(r.Bytes(32)))
@@ -313,9 +313,9 @@ func scalarEvents(tr *hx.Trace, r *hx.Rng, thorough bool) {
 	// Add / Mul / Contract / reduce on pairs in [0, L)^2 incl. the edges
 	edges := []*big.Int{big.NewInt(0), big.NewInt(1), big.NewInt(2), new(big.Int).Sub(L, big.NewInt(1)), new(big.Int).Sub(L, big.NewInt(2)),
 		new(big.Int).Rsh(L, 1), new(big.Int).Add(new(big.Int).Rsh(L, 1), big.NewInt(1)), two(252), new(big.Int).Sub(two(252), big.NewInt(1)), two(128), two(251)}
-	np := 30
+	np := 1500
 	if thorough {
-		np = 1500
+		np = 20000
 	}
 	var pairs [][2]*big.Int
 	for _, x := range edges {
